@@ -57,6 +57,7 @@ type cluster struct {
 	mu         sync.Mutex
 	nb         int
 	controller int32
+	off        int32            // broker ids on the wire = simulation ids + off (Case.IDBase0: -1)
 	leaders    []int32          // partition → leader of topicName
 	coord      map[string]int32 // group → coordinator
 	script     []Sym
@@ -142,9 +143,11 @@ func (cl *cluster) serve(id int32, sv net.Conn) {
 }
 
 func (cl *cluster) metadata(req *sarama.MetadataRequest) *sarama.MetadataResponse {
-	m := &sarama.MetadataResponse{Version: req.Version, ControllerID: cl.controller}
+	// (cl.off: the cluster's broker ids as the client sees them are the simulation's ids + off; with off = -1 the brokers
+	// are 0 and 1 - a broker id 0 is legal and common)
+	m := &sarama.MetadataResponse{Version: req.Version, ControllerID: cl.controller + cl.off}
 	for id := int32(1); id <= int32(cl.nb); id++ {
-		m.AddBroker(addrOf(id), id)
+		m.AddBroker(addrOf(id), id+cl.off)
 	}
 	want := req.Topics
 	if len(want) == 0 {
@@ -157,7 +160,7 @@ func (cl *cluster) metadata(req *sarama.MetadataRequest) *sarama.MetadataRespons
 		}
 		m.AddTopic(t, sarama.ErrNoError)
 		for p, l := range cl.leaders {
-			m.AddTopicPartition(t, int32(p), l, []int32{l}, []int32{l}, nil, sarama.ErrNoError)
+			m.AddTopicPartition(t, int32(p), l+cl.off, []int32{l + cl.off}, []int32{l + cl.off}, nil, sarama.ErrNoError)
 		}
 	}
 	return m
